@@ -61,7 +61,7 @@ func genC10(t *rapid.T, excluded *int) C10Case {
 	c := C10Case{}
 	c.Data.Schema = genClusterSchema(t, cfg, excluded)
 	n := rapid.IntRange(1, cfg.MaxPoints).Draw(t, "npoints")
-	c.Conf = h.ClusterConf{Partitions: rapid.IntRange(1, 4).Draw(t, "partitions"), Leaders: rapid.IntRange(1, 2).Draw(t, "leaders"), FollowersPer: rapid.IntRange(1, 2).Draw(t, "followers")}
+	c.Conf = h.ClusterConf{Partitions: rapid.IntRange(1, 5).Draw(t, "partitions"), Leaders: rapid.IntRange(1, 2).Draw(t, "leaders"), FollowersPer: rapid.IntRange(1, 2).Draw(t, "followers")}
 	for i := 0; i < n; i++ {
 		c.Data.Points = append(c.Data.Points, h.GenPoint(t, cfg, &c.Data.Schema, cfg.MaxPeriods, fmt.Sprintf("p%d", i)))
 		c.LeaderOf = append(c.LeaderOf, rapid.IntRange(0, c.Conf.Leaders-1).Draw(t, fmt.Sprintf("l%d", i)))
